@@ -147,7 +147,8 @@ def _check_case(case):
     if a['isa'] is None or not a['gs']:
         out.fail('R2:ack-envelope-missing', o.ack[:120])
         return out
-    if src_isa and ([x.rstrip() for x in a['isa'][4:8]] != [wr(x).rstrip() for x in (src_isa[6], src_isa[7], src_isa[4], src_isa[5])]):
+    # (a header field wider than its fixed width cannot be copied whole: the acknowledgement's own header keeps the width)
+    if src_isa and ([x.rstrip() for x in a['isa'][4:8]] != [wr(x)[:w].rstrip() for x, w in ((src_isa[6], 2), (src_isa[7], 15), (src_isa[4], 2), (src_isa[5], 15))]):
         out.fail('R2:isa-not-addressed-to-sender', 'ack ISA05-08 %r, input ISA05-08 %r' % (a['isa'][4:8], src_isa[4:8]))
     src_groups = [g for i in isas for g in i['groups']]
     if src_groups:
